@@ -163,8 +163,7 @@ class MFINFO(Aggregate):
         # Keep input free of side effects
         elem = deepcopy(elem)
 
-        yld = elem.find("./YIELD")
-        if yld is not None:
+        for yld in elem.findall("./YIELD"):
             logger.debug("Renaming <YIELD> to <YLD>")
             yld.tag = "YLD"
 
@@ -227,8 +226,7 @@ class STOCKINFO(Aggregate):
         # Keep input free of side effects
         elem = deepcopy(elem)
 
-        yld = elem.find("./YIELD")
-        if yld is not None:
+        for yld in elem.findall("./YIELD"):
             logger.debug("Renaming <YIELD> to <YLD>")
             yld.tag = "YLD"
 
